@@ -33,6 +33,9 @@ func checkC09(c c09Case) string {
 	}
 	d := time.Duration(c.D)
 	b.sub.Add(d)
+	if m := b.metaDiff(); m != "" {
+		return m
+	}
 
 	// expected
 	type exp struct {
@@ -128,6 +131,7 @@ func c09NonTrivial(c c09Case) (bool, []string) {
 
 func TestC09(t *testing.T) {
 	runWitnesses(t, "C09")
+	cliCases(t, "C09", "sync")
 
 	// Exhaustive: all lists of <=3 cues with 0<=s<=e<=4 (unit 1 ms) x d in -6..3, sharded by index.
 	sub(t, "grid", func(t *testing.T) {
